@@ -119,14 +119,18 @@ def main():
     import itertools
 
     cts = (("full", CommitType.FULL), ("links_only", CommitType.LINK_ONLY), ("none", CommitType.NO_COMMIT))
-    for hist in itertools.product(cts, repeat=3):
+    for hist, reuse in itertools.product(itertools.product(cts, repeat=3), (False, True)):
         for keys in (("k1", "k1", "k1"), ("k1", "k2", "k1"), ("k1", "k2", "k2")):
             evals += 1
             db = FakeDbutils()
             committed = None  # key named by the record
-            tag = "commit types %s, keys %s" % ([h[0] for h in hist], list(keys))
+            # reuse: one long-lived store object per commit type (two writers alternating on a path); else a fresh one per step
+            tag = "commit types %s, keys %s, %s" % ([h[0] for h in hist], list(keys), "one store object per commit type" if reuse else "a fresh store object per step")
+            objs = {}
             for (ct_name, ct), k in zip(hist, keys):
-                st = DBFSStore(DBFSURI.parse("dbfs:/int"), DBFSURI.parse("dbfs:/data"), db, ct)
+                st = objs.get(ct_name) if reuse else None
+                if st is None:
+                    st = objs[ct_name] = DBFSStore(DBFSURI.parse("dbfs:/int"), DBFSURI.parse("dbfs:/data"), db, ct)
                 for kk in ("k1", "k2"):
                     if not st.has_blob(kk):
                         st.store_blob(kk, "value of " + kk, None)
@@ -148,7 +152,7 @@ def main():
                     note(None, "[%s] after the 'full' commit of /h/p -> %s the data directory holds %r at the path, not a copy of the result" % (tag, k, data.get("dbfs:/data/h/p")))
                 if ct == CommitType.LINK_ONLY and data.get("dbfs:/data/h/p") != before.get("dbfs:/data/h/p"):
                     note(None, "[%s] a 'links only' commit wrote the object at the path" % tag)
-    print(json.dumps({"scope": "81 histories of 3 commit types over the same directories + 3 commit types x 4 value types x {store, commit, re-commit, leading-dot path, end-to-end keep/load with an edit and a revert} on a fake dbutils.fs",
+    print(json.dumps({"scope": "81 histories of 3 commit types over the same directories x {fresh store object per step, one long-lived store object per commit type} x 3 key sequences + 3 commit types x 4 value types x {store, commit, re-commit, leading-dot path, end-to-end keep/load with an edit and a revert} on a fake dbutils.fs",
                       "evaluations": evals, "distinct_nontrivial": evals, "rule": "one case per (commit type, operation)", "samples": [{"commit_type": "links_only", "op": "sync_paths then fetch_paths"}],
                       "violations": violations, "known_hits": ["bounded:%s (%d cases, e.g. %s)" % (c, len(w), w[0][:160]) for c, w in sorted(known.items())]}))
 
